@@ -17,6 +17,7 @@ import sys
 from lib import core, gen
 
 LEVEL = 'proof'
+BBH_FEATURES = []      # harness command families this check needs (fallback build, lib/core.py build_bbh)
 STATES = gen.STATES
 CORRESPONDENCE = ('bbh CompProg::from_str/show, read_instr/read_slot/read_state, show_instr/show_slot/show_state '
                   '= InstrsModel.from_str/show/read_*/show_*')
